@@ -242,3 +242,4 @@ func VerifH_C23_inc_counter() {
 	vr.Assert(w == v+1, "counter incremented as a 32-bit big-endian integer")
 	vr.Cover("done")
 }
+
